@@ -124,7 +124,7 @@ func parseList(s string) []string {
 	return splitTop(s[1 : len(s)-1])
 }
 
-func list(items []string) string { return "[" + strings.Join(items, ",") + "]" }
+func plist(items []string) string { return "[" + strings.Join(items, ",") + "]" }
 
 // hx renders a byte string as protocol hex atom.
 func hx(s string) string { return "x" + hex.EncodeToString([]byte(s)) }
